@@ -387,7 +387,7 @@ def c12():
     return dict(
         queries=qs,
         level='other',
-        level_text='(1) Schedules at critical-section granularity (C12/sched.cpp): thread B runs one API operation and thread A\'s operation is injected at a SOLVER-CHOSEN outermost acquisition of the global mutex by B (one preemption, A runs to completion); the outcome - reports, their kind and order, return values, query results - is one that running A and B one at a time can produce, no freed memory is touched (CBMC pointer checks; ASan natively), the lock is balanced. Scenes: release of a destruction requirement || destruction of the object (plain, sequenced); construction with bounds before IN_SEQUENCE || is_completed(); accepted sequenced calls || the queries; mock destruction || queries; release || the call it waits for; two calls on consecutive sequence steps. (2) Lock-discipline obligations per API operation, decided by bounded symbolic execution of the instrumented IR: the global mutex is constructed inside a thread-safe static initialisation, only that mutex object counts as the lock, every library function that touches state shared between threads (expectation lists, sequence lists, call counters, limits of an expectation already visible in a sequence, unlinking of linked elements) executes with the global recursive mutex held, and the mutex is balanced on every path including the exceptional one. From this it follows BY ARGUMENT (not by the solver) that conflicting accesses are ordered by the one mutex and each operation is a sequence of at most two critical sections. Schedules themselves are not explored.',
+        level_text='(1) Schedules at critical-section granularity (C12/sched.cpp): thread B runs one API operation and thread A\'s operation is injected at a SOLVER-CHOSEN outermost acquisition of the global mutex by B (one preemption, A runs to completion); the outcome - reports, their kind and order, return values, query results - is one that running A and B one at a time can produce, no freed memory is touched (CBMC pointer checks; ASan natively), the lock is balanced. Scenes: release of a destruction requirement || destruction of the object (plain, sequenced); construction with bounds before IN_SEQUENCE || is_completed(); accepted sequenced calls || the queries; mock destruction || queries; release || the call it waits for; two calls on consecutive sequence steps. (2) Lock-discipline obligations per API operation, decided by bounded symbolic execution of the instrumented IR: the global mutex is constructed inside a thread-safe static initialisation, only that mutex object counts as the lock, every library function that touches state shared between threads (expectation lists, sequence lists, call counters, limits of an expectation already visible in a sequence, unlinking of linked elements; the lock-free lifetime_monitor queries as soon as they read memory other than through std::atomic) executes with the global recursive mutex held, and the mutex is balanced on every path including the exceptional one. From this it follows BY ARGUMENT (not by the solver) that conflicting accesses are ordered by the one mutex and each operation is a sequence of at most two critical sections. Schedules themselves are not explored.',
         technique='bounded symbolic execution (CBMC/SAT) of the IR of the real headers: (1) schedule harness with the injection point as a symbolic variable, (2) lock-instrumented IR with obligations at the entry of shared-state functions',
         bound='14 operations: accepted / rejected / sequenced call, creation with {IN_SEQUENCE, TIMES, RT_TIMES} in both orders, release (unsequenced, sequenced), is_satisfied/is_saturated, sequence::is_completed, REQUIRE_DESTRUCTION create/release, watched destruction (sequenced), mock destruction, release of a sequenced expectation that outlived its mock',
         outside='more than one preemption, more than two threads, thread A itself interrupted, randomised free-running schedules, std::atomic memory ordering of the died flag, custom mutex configurations, sequence-object destruction concurrent with use (caller obligation); beyond the one-preemption model a sequential symbolic executor cannot quantify over interleavings',
